@@ -318,6 +318,7 @@ pub mod pulls {
     use super::*;
     use chumsky::input::{ExactSizeInput, Input, ValueInput};
     use chumsky::pratt::*;
+    use chumsky::Boxed;
     use std::cell::Cell;
 
     thread_local! {
